@@ -6,6 +6,7 @@
    "published cfg a j": j's header algorithm is a, and public_jwks cfg contains a key with j's
    kid, registered for a, without private members, under which j's signature verifies. *)
 From Verif Require Import Base Scope Types Prog Pop Token Authorize Artifacts C08Proofs.
+Local Open Scope N_scope.
 
 (* joseutil.Sign, for every key set, algorithm and claim set: whatever is signed with an asymmetric
    algorithm verifies under a key of the published set that is registered for that algorithm. *)
